@@ -825,9 +825,9 @@ def pure_srs(ctx, T):
 
         def crs(c):
             return {'CRS:84': 'EPSG:4326', 'EPSG:900913': 'EPSG:3857'}.get(c, c)
-        if (a, b) not in trans:
-            trans[(a, b)] = pyproj.Transformer.from_crs(crs(a), crs(b), always_xy=True)
-            trans[('EPSG:4326', a)] = pyproj.Transformer.from_crs('EPSG:4326', crs(a), always_xy=True)
+        for k in ((a, b), ('EPSG:4326', a)):
+            if k not in trans:
+                trans[k] = pyproj.Transformer.from_crs(crs(k[0]), crs(k[1]), always_xy=True)
         p = trans[('EPSG:4326', a)].transform(lon, lat)
         want = trans[(a, b)].transform(*p)
         st, got = call(lambda: SRS(a).transform_to(SRS(b), p))
